@@ -11,7 +11,7 @@ RULE = ('seeded list/stat calls: listings of 0..300 entries, names 1..255 arbitr
         'whole 32-bit range biased to 0, 2^31, 2^32-1, DENT headers and names split across WRTEs by the cut policies, all read fragmentations, stat '
         'replies likewise (existing, missing and overridden paths); in 15% of the cases one payload is damaged on the wire or one read times out while the device stays healthy (the call may fail, never return a shortened listing). non-trivial = a DENT/STAT record was split across WRTEs; distinct = event-log digests')
 ASSUMPTIONS = ['adbd answers STAT for a missing path with zeros and LIST of a missing directory with DONE only']
-EXPECT_PROBES = {'all': ['sync_header_split_across_wrte', 'c09_big_listing', 'c09_high_bit_field', 'c09_fault_failed_list_or_stat']}
+EXPECT_PROBES = {'all': ['sync_header_split_across_wrte', 'c09_big_listing', 'c09_high_bit_field', 'c09_fault_failed_list_or_stat', 'debug_logging_on']}
 OWN = ('wrong-result', 'unexpected-exception', 'timeout-instead-of-result', 'missing-exception', 'wrong-exception', 'hang', 'no-termination', 'not-closed', 'unacked-write')
 
 
@@ -41,6 +41,8 @@ def generate(seed, tier):
             plan['policy'] = 'straddle'
     cfg = S.gen_config(g, total)
     scn = {'api': g.pick(['sync', 'async']), 'transport': 'mem', 'device': d, 'config': cfg, 'actors': [[S.timeouts(g, {'op': 'connect'})] + ops], 'object': {'banner': 'simhost'}}
+    if g.chance(0.15):
+        cfg['log_debug'] = True      # names are bytes: what the log level is must not matter
     if g.chance(0.15):
         # one thing goes wrong part-way (a payload damaged on the wire, or a single read that times out) while the device stays
         # healthy and answers the CLOSE: the call may fail, it must never hand back a shortened listing or a made-up triple
